@@ -73,6 +73,8 @@ def work(chunk, points=None, tier='quick', quick_slice=0):
             cell = '%s/n=%d' % (method, n)
             if res['status'] != 'ok':
                 acc.case(case, nontrivial=False, outcome=res['status'])
+                if gen[0] == 'rows' and gen[1]['rows'] <= 0 and res['status'] == 'raised-ValueError':
+                    return
                 # no record at all for a configuration of the C01 domain (C01 reports the same call under its key)
                 acc.violation('C02:Derivative:no-record:%s:%s' % (res['status'], method), jc,
                               'full_output call raised %s' % res.get('exc'), rank)
@@ -123,7 +125,7 @@ def work(chunk, points=None, tier='quick', quick_slice=0):
                 acc.maxi('worst_excess_over_estimate/%s/%d' % (method, n), max(err - F * unit, 0.0) / e)
             if not (err <= bound):
                 gk = '' if gen[0] == 'default' else ':gen=' + gen[0] + (
-                    '-long' if (gen[1].get('num_steps') or 0) >= 20 else '')
+                    '-long' if (gen[1].get('num_steps') or 0) >= 20 else '') + (str(gen[1]['rows']) if gen[0] == 'rows' else '')
                 acc.violation('C02:Derivative:dishonest-estimate:%s:n=%d%s' % (method, n, gk), jc,
                               'Derivative(%s, n=%d, %s, order=%d, gen=%r)(%r): error %.3g > K1=%g x estimate %.3g + '
                               'F=%g x S_n %.3g' % (show, n, method, order, gen, comb.x, err, K1, e, F, unit), rank)
